@@ -147,8 +147,8 @@ def candidates(prog, f, keep=None):
             continue
         if len(t["args"]) != g.argc:
             continue
-        if g.locals[0].startswith(("core::result::Result<", "core::option::Option<core::result::Result<")) and not _question_mark(f, t):
-            continue            # its error returns would merge into paths that carry on: only `helper(..)?` is looked through
+        if g.locals[0].startswith(("core::result::Result<", "core::option::Option<core::result::Result<")) and not (_question_mark(f, t) or _tail_result(f, t)):
+            continue            # its error returns would merge into paths that carry on: only `helper(..)?` and `return helper(..)` are looked through
         # a helper that calls back into f, or itself, stays a call
         if any(k in (f.key, g.key) for _b2, t2 in g.calls() for k in prog.targets(t2)):
             continue
@@ -179,6 +179,32 @@ def _question_mark(f, t):
         if bt is not nt and d in _locals_read(bt):
             uses += 1
     return uses == 0
+
+
+def _tail_result(f, t):
+    """The call's result is the caller's own result: dest is _0, or the continuation moves it into _0 (through drops / gotos only) and returns."""
+    if t.get("to") is None or t["dest"]["p"]:
+        return False
+    d = t["dest"]["l"]
+    cur = t["to"]
+    moved = d == 0
+    for _ in range(10):
+        b = f.blocks[cur]
+        for st in b.st:
+            if st["s"] != "=":
+                continue
+            if not moved and st["lhs"]["l"] == 0 and not st["lhs"]["p"] and st["rv"].get("r") == "use" and st["rv"]["a"].get("k") == "move" and \
+                    st["rv"]["a"]["pl"]["l"] == d and not st["rv"]["a"]["pl"]["p"]:
+                moved = True
+            else:
+                return False
+        tt = b.term
+        if tt["t"] == "return":
+            return moved
+        if tt["t"] not in ("goto", "drop"):
+            return False
+        cur = tt["to"]
+    return False
 
 
 def _locals_read(node, out=None):
@@ -299,6 +325,20 @@ def _type_args(ty):
     return out
 
 
+def _closure_behind(f, op, depth=0):
+    """(defining statement, local) of the closure aggregate an operand is a (moved) copy of, following single definitions"""
+    if op.get("k") not in ("move", "copy") or op["pl"]["p"] or depth > 6:
+        return None
+    d = _single_def(f, op["pl"]["l"])
+    if d is None or d.get("s") != "=":
+        return None
+    if d["rv"].get("r") == "agg" and d["rv"].get("closure"):
+        return d, op["pl"]["l"]
+    if d["rv"].get("r") == "use":
+        return _closure_behind(f, d["rv"]["a"], depth + 1)
+    return None
+
+
 def lower_candidates(prog, f):
     """[(block index, spec, closure Fn, closure local)] for the combinator calls of f whose closure is new (not in known_closures.txt)."""
     from .facts import callee_skey
@@ -307,6 +347,20 @@ def lower_candidates(prog, f):
         return []
     out = []
     for b, t in f.calls():
+        ck_ = callee_skey(t) or t.get("decl") or ""
+        if re.search(r"(FnOnce>?::call_once|FnMut>?::call_mut|Fn>?::call)$", ck_) and t.get("to") is not None and len(t["args"]) == 2:
+            # `f(a, b)` where f is a closure built in this function (typically handed to a helper that was looked through)
+            c = t["args"][0]
+            cl = _closure_behind(f, c)
+            if cl is not None:
+                d_, cloc = cl
+                g = prog.fns.get(d_["rv"]["closure"])
+                if g is None:
+                    cands = [h for h in prog.fns.values() if h.skey == d_["rv"]["closure"] or h.key == d_["rv"]["closure"]]
+                    g = cands[0] if len(cands) == 1 else None
+                if g is not None and g.blocks and len(g.blocks) <= MAX_BLOCKS and "%s\t%s" % (closure_parent_skey(g), closure_shape(g)) not in known:
+                    out.append((b.idx, {"kind": "call"}, g, cloc))
+            continue
         spec = COMBINATORS.get(callee_skey(t) or "")
         if not spec or t.get("to") is None or len(t["args"]) != 2:
             continue
@@ -333,11 +387,52 @@ def lower_candidates(prog, f):
     return out
 
 
+def _lower_call(d, bidx, g, t, sp):
+    """`dest = call_once(move c, move (a, b)) -> to` with c a closure of this function: the closure body in place of the call."""
+    blk = d["blocks"][bidx]
+    dest, to = t["dest"], t["to"]
+    off = len(d["locals"])
+    base = len(d["blocks"])
+    d["locals"].extend(g.locals)
+    for n, pl in g.names:
+        npl = copy.deepcopy(pl)
+        _remap_place(npl, off)
+        d["names"].append([n, npl])
+
+    def stmt(lhs, rv):
+        return {"s": "=", "lhs": lhs, "rv": rv, "sp": sp, "inl": g.key}
+    c = t["args"][0]
+    env_ty = g.locals[1]
+    if env_ty.startswith("&"):
+        blk["st"].append(stmt({"l": off + 1, "p": []}, {"r": "ref", "mut": "mut" in env_ty[:8], "pl": copy.deepcopy(c["pl"])}))
+    else:
+        blk["st"].append(stmt({"l": off + 1, "p": []}, {"r": "use", "a": copy.deepcopy(c)}))
+    tup = t["args"][1]
+    for i in range(g.argc - 1):
+        if tup.get("k") in ("move", "copy"):
+            src = {"k": "move", "pl": {"l": tup["pl"]["l"], "p": list(tup["pl"]["p"]) + [{"f": str(i), "of": "()", "ty": g.locals[2 + i]}]}}
+            blk["st"].append(stmt({"l": off + 2 + i, "p": []}, {"r": "use", "a": src}))
+    blk["term"] = {"t": "goto", "to": base, "sp": sp}
+    for gb in g.blocks:
+        st = copy.deepcopy(gb.st)
+        tm = copy.deepcopy(gb.term)
+        _walk(st, off)
+        _walk(tm, off)
+        _remap_succs(tm, base)
+        nb = {"st": st, "term": tm, "cleanup": gb.cleanup, "tsp": gb.tsp}
+        if tm["t"] == "return":
+            nb["st"].append(stmt(copy.deepcopy(dest), {"r": "use", "a": {"k": "move", "pl": {"l": off, "p": []}}}))
+            nb["term"] = {"t": "goto", "to": to, "sp": gb.tsp}
+        d["blocks"].append(nb)
+
+
 def _lower(d, bidx, spec, g, cl, f_locals):
     """Rewrite block bidx of the function dict d: the combinator call becomes a test of x's variant with the closure body on one arm."""
     blk = d["blocks"][bidx]
     t = blk["term"]
     sp = t.get("sp") or blk["tsp"]
+    if spec.get("kind") == "call":
+        return _lower_call(d, bidx, g, t, sp)
     x = t["args"][0]["pl"]
     dest, to = t["dest"], t["to"]
     adt = spec["adt"]
